@@ -7,6 +7,11 @@
 * every `sorted(` call of `_serialisation_helpers.py` with its enclosing function and its key
   (ast scan), the attribute `Symbol.__lt__` compares (ast scan), and the key
   `make_cacheable_import_info` sorts on.
+* where the ORDER of `import_irs` comes from (ast scan of `rattr/analyser/file.py`): what the BFS queue is
+  initialised with and what is appended to it (local names resolved to the expression they are bound to,
+  a loop variable to the iterable of its loop), what `SymbolTable.symbols` returns and what `_symbols` is,
+  how `import_irs` is created and assigned; `serialise_irs` contains no `sorted(` and a probe document
+  keeps the insertion order of `import_irs`; what `make_cacheable_import_info` collects into what.
 """
 import ast
 import inspect
@@ -74,6 +79,84 @@ def _sorted_calls(tree):
     walk(tree, "<module>")
     out.sort(key=lambda t: (t[2], t[3]))
     return [(a, b) for a, b, _, _ in out]
+
+
+def _iter_desc(fn, expr, depth=0):
+    """Where the elements of an iterable expression come from: a local name bound once is replaced by the
+    expression it is bound to, a comprehension by `<kind>[elt]:<iter>|<conditions>`."""
+    U = ast.unparse
+    if isinstance(expr, ast.Name) and depth < 4:
+        defs = [n for n in ast.walk(fn) if isinstance(n, ast.Assign) and len(n.targets) == 1
+                and isinstance(n.targets[0], ast.Name) and n.targets[0].id == expr.id]
+        if len(defs) == 1:
+            return _iter_desc(fn, defs[0].value, depth + 1)
+        if expr.id in [a.arg for a in fn.args.args]:
+            return f"param:{expr.id}"
+        return f"name:{expr.id}/{len(defs)}-defs"
+    if isinstance(expr, (ast.ListComp, ast.GeneratorExp, ast.SetComp)):
+        kind = {ast.ListComp: "listcomp", ast.GeneratorExp: "genexp", ast.SetComp: "setcomp"}[type(expr)]
+        gens = ";".join(f"{U(g.iter)}|{'&'.join(U(i) for i in g.ifs)}" for g in expr.generators)
+        return f"{kind}[{U(expr.elt)}]:{gens}"
+    if isinstance(expr, ast.Call):
+        return f"call:{U(expr.func)}(" + ",".join(_iter_desc(fn, a, depth + 1) for a in expr.args) + ")"
+    return "expr:" + U(expr)
+
+
+def _import_queue(tree):
+    """(event, description) in source order for `parse_and_analyse_imports` and its caller."""
+    U = ast.unparse
+    fns = {n.name: n for n in ast.walk(tree) if isinstance(n, ast.FunctionDef)}
+    f = fns["parse_and_analyse_imports"]
+    out = []
+
+    class V(ast.NodeVisitor):
+        def __init__(self):
+            self.loops = []
+
+        def visit_For(self, n):
+            self.loops.append(n)
+            self.generic_visit(n)
+            self.loops.pop()
+
+        def visit_Assign(self, n):
+            t = n.targets[0]
+            if U(t) == "queue":
+                out.append((n.lineno, "queue:init", _iter_desc(f, n.value)))
+            if isinstance(t, ast.Subscript) and U(t.value) == "import_irs":
+                out.append((n.lineno, "import_irs:store", U(n)))
+            self.generic_visit(n)
+
+        def visit_AnnAssign(self, n):
+            if U(n.target) == "import_irs":
+                out.append((n.lineno, "import_irs:init", U(n.value)))
+            self.generic_visit(n)
+
+        def visit_Call(self, n):
+            if isinstance(n.func, ast.Attribute) and U(n.func.value) in ("queue", "import_irs"):
+                m, obj = n.func.attr, U(n.func.value)
+                if obj == "queue" and n.args:
+                    arg = n.args[-1]
+                    d = _iter_desc(f, arg)
+                    for lp in reversed(self.loops):
+                        if isinstance(arg, ast.Name) and U(lp.target) == arg.id:
+                            d = "for:" + _iter_desc(f, lp.iter)
+                            break
+                    out.append((n.lineno, f"queue:{m}", d))
+                else:
+                    out.append((n.lineno, f"{obj}:{m}", ""))
+            self.generic_visit(n)
+
+    V().visit(f)
+    g = fns["__parse_and_analyse_file_impl"]
+    for node in ast.walk(g):
+        if isinstance(node, ast.Call) and U(node.func) == "parse_and_analyse_imports":
+            out.append((node.lineno, "caller:imports", _iter_desc(g, node.args[0])))
+    # every other mention of `import_irs` that could reorder it (sorted / reversed / dict(...) rebuilds)
+    for node in ast.walk(f):
+        if isinstance(node, ast.Return):
+            out.append((node.lineno, "return", U(node.value)))
+    out.sort()
+    return [(a, b) for _, a, b in out]
 
 
 def tables():
@@ -160,7 +243,45 @@ def tables():
                             lt_attr = f"{r.left.attr}<{r.comparators[0].attr}"
     decls.append(f"def symbolLtCompares : String := {lstr(lt_attr)}")
 
+    # ---- the order of import_irs
+    import rattr.analyser.file as afile
+    import rattr.models.context._symbol_table as stmod
+    import rattr.models.util.serialise as sermod
+    decls.append(f"def importQueue : List (String × String) := "
+                 f"{llist(_import_queue(ast.parse(Path(inspect.getsourcefile(afile)).read_text())), pair)}")
+    sttree = ast.parse(Path(inspect.getsourcefile(stmod)).read_text())
+    symtab = []
+    for node in ast.walk(sttree):
+        if isinstance(node, ast.ClassDef) and node.name == "SymbolTable":
+            for st in node.body:
+                if isinstance(st, ast.AnnAssign) and ast.unparse(st.target) == "_symbols":
+                    symtab.append(("_symbols", ast.unparse(st.annotation) + " = " + ast.unparse(st.value)))
+                if isinstance(st, ast.FunctionDef) and st.name == "symbols":
+                    symtab.append(("symbols", "; ".join(ast.unparse(x) for x in st.body)))
+                if isinstance(st, ast.FunctionDef) and st.name == "__setitem__":
+                    symtab.append(("__setitem__", "; ".join(ast.unparse(x) for x in st.body
+                                                            if not isinstance(x, ast.Expr) or not isinstance(x.value, ast.Constant))))
+    decls.append(f"def symbolTableOrder : List (String × String) := {llist(symtab, pair)}")
+    sertree = ast.parse(Path(inspect.getsourcefile(sermod)).read_text())
+    decls.append(f"def serialiseIrsSortedCalls : List (String × String) := "
+                 f"{llist([c for c in _sorted_calls(sertree)], pair)}")
+    probe_irs = _pairs(serialise_irs(target_name="t.py", target_ir=fir, import_irs={"zz": fir, "aa": fir, "mm": fir}))
+    decls.append(f"def importIrsProbeKeys : List String := {llist(_keys(_get(probe_irs, 'import_irs')))}")
+
     rtree = ast.parse(Path(inspect.getsourcefile(rutil)).read_text())
+    ci = []
+    for node in ast.walk(rtree):
+        if isinstance(node, ast.FunctionDef) and node.name == "make_cacheable_import_info":
+            for r in ast.walk(node):
+                if isinstance(r, ast.Assign) and ast.unparse(r.targets[0]) == "contexts":
+                    ci.append(("contexts", ast.unparse(r.value)))
+                if isinstance(r, ast.Call) and isinstance(r.func, ast.Name) and r.func.id == "sorted":
+                    a = r.args[0]
+                    kind = {ast.SetComp: "setcomp", ast.ListComp: "listcomp", ast.GeneratorExp: "genexp"}.get(type(a), "other")
+                    gens = ";".join(ast.unparse(g.iter) for g in getattr(a, "generators", []))
+                    ci.append(("sorted-arg", f"{kind}:{gens}"))
+                    ci.append(("filters", str(sum(len(g.ifs) for g in getattr(a, "generators", [])))))
+    decls.append(f"def cacheImportInfo : List (String × String) := {llist(ci, pair)}")
     decls.append(f"def cacheImportsSorted : List (String × String) := "
                  f"{llist([c for c in _sorted_calls(rtree) if c[0] == 'make_cacheable_import_info'], pair)}")
     return decls
